@@ -29,6 +29,9 @@ ASSUMPTIONS = [
     "histories: passing the result of an earlier match() (any mode, nearest neighbour included) or a track with analytical features "
     "of its own as first or second argument is ordinary use (match() deep-copies its first argument and re-initialises 'pair'); "
     "nothing is demanded of the nearest-neighbour results themselves",
+    "histories: a caller may also keep its two Track objects and edit them in place between two calls (Track.translate / scale / "
+    "symmetrize, position.setX/setY/setZ on one fix; integer / power-of-two parameters on lattice data, so the edited coordinates are "
+    "exact); every call is judged against the coordinates the two objects hold at the time of that call, recomputed from the case",
     "compare(mode=DTW/FDTW) (normalised score) and p = 0 / user weight functions are outside the statement and not checked",
 ]
 
@@ -304,12 +307,70 @@ def _check_step(out, t1, t2, mode, dim, p, ctx):
     return _tie_classes(T)
 
 
+def _edit_data(pts, ed):
+    """coordinates after an in-place edit (pure; the oracle's side).  Lattice / dyadic data and integer or power-of-two
+    parameters: every result is exact"""
+    op = ed["op"]
+    if op == "translate":
+        d = ed["d"]
+        return [[q[0] + d[0], q[1] + d[1], q[2] + d[2]] for q in pts]
+    if op == "scale":                                   # Track.scale: planar homothety, z unchanged
+        return [[q[0] * ed["h"], q[1] * ed["h"], q[2]] for q in pts]
+    if op == "set":
+        out = [list(q) for q in pts]
+        out[ed["i"] % len(pts)] = [float(v) for v in ed["xyz"]]
+        return out
+    if op == "symmetrize":                              # Track.symmetrize(dim, val): coordinate -> val - coordinate
+        out = [list(q) for q in pts]
+        for q in out:
+            q[ed["dim"]] = ed["val"] - q[ed["dim"]]
+        return out
+    raise HarnessError("unknown edit %r" % (ed,))
+
+
+def _edit_live(tr, ed):
+    """the same edit on the tracklib object that earlier calls have already seen"""
+    op = ed["op"]
+    if op == "translate":
+        tr.translate(ed["d"][0], ed["d"][1], ed["d"][2])
+    elif op == "scale":
+        tr.scale(ed["h"])
+    elif op == "set":
+        pos = tr.getObs(ed["i"] % tr.size()).position
+        pos.setX(float(ed["xyz"][0]))
+        pos.setY(float(ed["xyz"][1]))
+        pos.setZ(float(ed["xyz"][2]))
+    elif op == "symmetrize":
+        tr.symmetrize(ed["dim"], ed["val"])
+
+
+@st.composite
+def _edit(draw):
+    op = draw(st.sampled_from(["translate", "translate", "set", "set", "scale", "symmetrize"]))
+    on = draw(st.sampled_from(["cur", "cur", "ref"]))
+    c = st.integers(-3, 3)
+    if op == "translate":
+        d = [draw(c), draw(c), draw(c)]
+        if d == [0, 0, 0]:
+            d = [3, -2, 1]
+        return {"on": on, "op": op, "d": d}
+    if op == "set":
+        return {"on": on, "op": op, "i": draw(st.integers(0, 5)), "xyz": [draw(c), draw(c), draw(c)]}
+    if op == "scale":
+        return {"on": on, "op": op, "h": draw(st.sampled_from([2, 0.5, -1, 4]))}
+    return {"on": on, "op": op, "dim": draw(st.integers(0, 2)), "val": draw(c)}
+
+
 @st.composite
 def strat_history(draw):
     kind = draw(st.sampled_from(["lat3", "lat3", "near", "line"]))
+    # plan: 'chain' = the result of a call is the first argument of the next one (no edits: the first version of this
+    # sub-check); 'mixed' = chain steps, kept objects and in-place edits mixed; 'loop' = registration loop: the same two
+    # objects are matched again and again with an in-place move in between
+    plan = draw(st.sampled_from(["chain", "mixed", "mixed", "loop", "loop"]))
     sizes = st.sampled_from([1, 2, 3, 3, 4, 4, 5, 6])
     n0 = draw(sizes)
-    nref = draw(st.integers(1, 3))
+    nref = 1 if plan == "loop" else draw(st.integers(1, 3))
     if kind == "lat3":
         c = st.integers(0, 2)
         tracks = [[[draw(c), draw(c), draw(c)] for _ in range(n0)]]
@@ -330,12 +391,28 @@ def strat_history(draw):
             xs = sorted(draw(x) for _ in range(draw(sizes)))
             tracks.append([[v, r + 1, 1] for v in xs])
     steps = []
-    for _ in range(draw(st.sampled_from([2, 3, 2, 3, 1]))):
-        steps.append({"ref": draw(st.integers(1, nref)),
-                      "mode": draw(st.sampled_from(["dtw", "dtw", "fdtw", "fdtw", "frechet", "nn"])),
-                      "p": draw(st.sampled_from([1, 2, "inf"])),
-                      "dim": draw(st.sampled_from([2, 2, 1, 3])),
-                      "swap": draw(st.sampled_from([False, False, False, True]))})
+    nsteps = draw(st.sampled_from([2, 3, 2, 3, 1])) if plan == "chain" else draw(st.sampled_from([2, 3, 3, 4]))
+    loop_dim = draw(st.sampled_from([2, 2, 1, 3]))
+    loop_swap = draw(st.sampled_from([False, False, True]))
+    for k in range(nsteps):
+        stp = {"ref": draw(st.integers(1, nref)),
+               "mode": draw(st.sampled_from(["dtw", "dtw", "fdtw", "fdtw", "frechet", "nn"])),
+               "p": draw(st.sampled_from([1, 2, "inf"])),
+               "dim": draw(st.sampled_from([2, 2, 1, 3])),
+               "swap": draw(st.sampled_from([False, False, False, True]))}
+        if plan == "loop":
+            stp["keep"] = True
+            stp["swap"] = loop_swap
+            stp["mode"] = draw(st.sampled_from(["dtw", "dtw", "dtw", "frechet", "fdtw"]))
+            if draw(st.sampled_from([True, True, True, False])):
+                stp["dim"] = loop_dim
+            if k > 0:
+                stp["edit"] = draw(_edit())
+        elif plan == "mixed":
+            stp["keep"] = draw(st.booleans())
+            if draw(st.booleans()):
+                stp["edit"] = draw(_edit())
+        steps.append(stp)
     feats = draw(st.sampled_from([[], [], ["foo"], ["abs_curv", "foo"], ["diff"], ["ex", "foo"]]))
     return {"tracks": tracks, "features": feats, "steps": steps}
 
@@ -344,10 +421,13 @@ def body_history(case):
     tracks, feats, steps = case["tracks"], list(case.get("features") or []), case["steps"]
     if not tracks or any(not t for t in tracks) or not steps:
         return {"undef": True}
+    geo = [[[float(v) for v in q] for q in t] for t in tracks]     # coordinates each live object holds NOW
     cur = _mk(tracks[0], feats)
     refs = {}
     carried = bool(feats)          # does the first argument carry state (features of its own / of an earlier matching)?
+    edited = False                 # has any live object been edited in place after a call saw it?
     prev_refs = []
+    last = None                    # (id(first), id(second), dim) of the previous DTW-type call
     cls = set()
     nt = False
     checked = 0
@@ -357,22 +437,34 @@ def body_history(case):
             return {"undef": True}
         if ref not in refs:
             refs[ref] = _mk(tracks[ref])
+        ed = stp.get("edit")
+        moved = False
+        if ed:
+            which = 0 if ed.get("on") == "cur" else ref
+            new = _edit_data(geo[which], ed)
+            _edit_live(cur if which == 0 else refs[ref], ed)
+            moved = new != geo[which]
+            geo[which] = new
+            edited = edited or (k > 0 and moved)
+            cls.add("edit-%s-on-%s" % (ed["op"], "first-track" if which == 0 else "reference"))
         first, second = (refs[ref], cur) if swap else (cur, refs[ref])
-        g1, g2 = (tracks[ref], tracks[0]) if swap else (tracks[0], tracks[ref])
+        g1, g2 = (geo[ref], geo[0]) if swap else (geo[0], geo[ref])
         kw = dict(mode=HMODES[mode], dim=dim, verbose=False, plot=False)
         if mode not in ("nn", "frechet"):
             kw["p"] = p
         out = match(first, second, **kw)
+        same_objects = last is not None and last[:2] == (id(first), id(second))
         if mode != "nn":
-            ctx = "step %d of %s: mode=%s p=%s dim=%s swap=%s; tracks=%s features=%s" % (
-                k, [(s["mode"], s["ref"], bool(s.get("swap"))) for s in steps], mode, p, dim, swap, tracks, feats)
+            ctx = "step %d of %s: mode=%s p=%s dim=%s swap=%s edit=%s; coordinates now %s (initially %s) features=%s" % (
+                k, [(s["mode"], s["ref"], bool(s.get("swap")), bool(s.get("keep")), s.get("edit")) for s in steps], mode, p, dim,
+                swap, ed, geo, tracks, feats)
             try:
                 ties = _check_step(out, g1, g2, mode, dim, p, ctx)
             except Violation as v:
-                if carried and not swap:
-                    # same geometry, same call, but from a track without history: if that is fine the root cause is
-                    # state carried over from the first argument, not the dynamic programme
-                    fresh = match(_mk(tracks[0]), _mk(tracks[ref]), **kw)
+                if (carried and not swap) or edited:
+                    # same geometry, same call, but from tracks without history: if that is fine the root cause is
+                    # state carried over from an earlier call / the first argument, not the dynamic programme
+                    fresh = match(_mk(g1), _mk(g2), **kw)
                     try:
                         _check_step(fresh, g1, g2, mode, dim, p, ctx)
                     except Violation:
@@ -387,9 +479,18 @@ def body_history(case):
                     cls.add("rematch-same-reference")
                 if ties:
                     cls.add("history+tie")
-        if not swap:
+            if same_objects:
+                cls.add("same-two-objects-as-previous-call")
+                if moved:
+                    nt = True
+                    cls.add("same-two-objects-moved-in-between")
+                    cls.add("same-two-objects-moved-in-between,%s-dim" % ("same" if last[2] == dim else "other"))
+        last = (id(first), id(second), dim)
+        if not swap and not stp.get("keep"):
             cur = out
             carried = True
+            prev_refs.append(ref)
+        elif not swap:
             prev_refs.append(ref)
     cls.add("steps=%d" % len(steps))
     cls.add("features" if feats else "no-features")
@@ -406,12 +507,17 @@ RULE = ("small: every unordered pair of tracks with <= 2 (quick) / <= 3 (thoroug
         "features, also ones named 'diff'/'ex') and 1..3 reference tracks, 1..3 steps out = match(current, ref_k, mode in "
         "{DTW, FDTW, FRECHET, NN}, p, dim) with current := out (or, 1 in 4, match(ref_k, current)); every non-NN result is checked "
         "with the complete oracle against the two tracks of its step; non-trivial there: a checked step whose first argument is the "
-        "result of an earlier step. Distinct = hash of the case.")
+        "result of an earlier step, or whose two arguments are the same two objects as in the previous call with an in-place "
+        "coordinate edit in between. Three plans: 'chain' (as described), 'mixed' (each step may keep the current object instead of "
+        "replacing it by the result and may be preceded by an in-place edit of the first track or of the reference), 'loop' (one "
+        "reference, 2..4 calls on the same two objects, same dim in 3 of 4, DTW / FRECHET / FDTW, p free, an in-place edit before "
+        "every call but the first). Distinct = hash of the case.")
 
 SUBCHECKS = [
     SubCheck("small", body_small, enum=enum_small, rule="all unordered pairs of lattice tracks of <= 2/3 fixes x p in {1,2,inf}",
              qshards=8, tshards=16),
     SubCheck("pairs", body_pair, strategy=strat_pair, quick=8000, thorough=150000, qshards=8),
     SubCheck("histories", body_history, strategy=strat_history, quick=4000, thorough=60000, qshards=8,
-             rule="1..3 successive match() calls on the result of the previous one / on a track with features"),
+             rule="1..4 successive match() calls on the result of the previous one / on a track with features / on the same two "
+                  "objects edited in place in between"),
 ]
